@@ -40,6 +40,7 @@ PROPS["C13"] = {
                 "TestC13Twin": T(12000, 150000),
                 "TestC13Injective": T(60000, 600000),
                 "TestC13NilEntropy": LIST(),
+                "TestC13Len32": LIST(),
             },
         },
         {
